@@ -418,6 +418,71 @@ def run_paced_control(params, known):
     return dict(name=params['name'], evaluations=count, nontrivial_keys=sorted(keys), violations=violations, known=[], samples=[])
 
 
+def run_end_to_end(params, known):
+    '''A real sender and a real receiver joined by the datagram network: bundles around the 64 KiB
+    boundaries (and small ones) at several MTUs, datagrams delivered in order / reversed; handed to the
+    sender as octets over the bus or as a file object whose read position is at the start, in the
+    middle or at the end.  What the receiver pops is the bundle, octet for octet, once.'''
+    import io
+    violations = []
+    kinds = set()
+    keys = set()
+    count = 0
+
+    def viol(kind, detail, case):
+        if kind in kinds:
+            return
+        kinds.add(kind)
+        v = Violation(PROP, 'end-to-end', kind, dict(), '%r: %s' % (case, detail)).as_dict()
+        v['case'] = case
+        violations.append(v)
+    for (length, mtu) in ((40, 1000), (300, 120), (65535, 1400), (65536, 1400), (65537, 1400), (65537, 60000), (70000, 9000), (131073, 60000)):
+        for how in ('octets', 'file@0', 'file@7', 'file@end'):
+            if how != 'octets' and length > 70000:
+                continue
+            for order in ('in-order', 'reversed'):
+                count += 1
+                case = dict(length=length, mtu=mtu, handed_over_as=how, arrival=order)
+                world = UdpWorld(dict(mtu=mtu))
+                data = bundle_like(length, seed=9)
+                if how == 'octets':
+                    res = world.send('S', data)
+                else:
+                    fobj = io.BytesIO(data)
+                    fobj.seek({'file@0': 0, 'file@7': 7, 'file@end': length}[how])
+                    proc = world.procs['S']
+                    try:
+                        res = ('ok', world.in_proc(proc, lambda: proc.roots['agent'].send_bundle_fileobj(fobj, {'address': R_ADDR[0], 'port': R_ADDR[1]})))
+                    except Exception as err:
+                        res = ('error', type(err).__name__, str(err))
+                    world.collect(('user',))
+                if res[0] != 'ok':
+                    viol('send-call-failed', repr(res), case)
+                    continue
+                world.quiesce()
+                if order == 'reversed':
+                    world.net.in_flight.reverse()
+                world.quiesce(deliver=True)
+                if world.escaped:
+                    esc = world.escaped[-1]
+                    viol('exception-escaped-callback', '%s: %s' % (esc[1], esc[3]), case)
+                    continue
+                fin = [sg for sg in world.signals['R'] if sg[0] == 'recv_bundle_finished']
+                if len(fin) != 1:
+                    viol('completion-not-announced-once', repr(fin)[:300], case)
+                    continue
+                if int(fin[0][2]) != length:
+                    viol('announced-length-differs', 'announced %r, bundle has %d octets' % (fin[0][2], length), case)
+                pop = world.pop('R', fin[0][1])
+                got = bytes(pop[1]) if pop[0] == 'ok' else None
+                if got != data:
+                    viol('popped-bundle-differs', 'popped %s octets, the bundle has %d%s' % (
+                        len(got) if got is not None else pop, length,
+                        '' if got is None else ', first difference at octet %s' % next((i for i in range(min(len(got), length)) if got[i] != data[i]), 'the end')), case)
+                keys.add('%d/%d/%s/%s' % (length, mtu, how, order))
+    return dict(name=params['name'], evaluations=count, nontrivial_keys=sorted(keys), violations=violations, known=[], samples=[])
+
+
 def run_pop_histories(params, known):
     '''Receive / pop histories at a real receiving agent: four bundles arrive one after the other
     (whole, or in two segments in either order); the user pops any announced and not yet popped
@@ -736,6 +801,7 @@ def scenarios(tier):
         name = 'sizing-%d/%d' % (part + 1, parts)
         out.append(dict(name=name, kind='enum', runner='run_sizing', params=dict(name=name, part=part, parts=parts, tier=tier), weight=50))
     out.append(dict(name='ranges', kind='enum', runner='run_ranges', params=dict(name='ranges'), weight=5))
+    out.append(dict(name='end-to-end', kind='enum', runner='run_end_to_end', params=dict(name='end-to-end'), weight=30))
     out.append(dict(name='pop-histories', kind='enum', runner='run_pop_histories', params=dict(name='pop-histories'), weight=20))
     out.append(dict(name='paced-control', kind='enum', runner='run_paced_control', params=dict(name='paced-control'), weight=30))
     depth = 6 if tier == 'thorough' else 5
@@ -755,6 +821,7 @@ ASSUMPTIONS = [
     'UDP modelled as datagrams that may be reordered and duplicated; the sending agent runs under a virtual clock (pacing timer)',
     'sizing: bundle lengths 2..70, 250..262, 65535/65536 (65530..65541 thorough); a bundle of exactly the MTU may be segmented',
     'reassembly: duplicates may yield a second complete copy but never a partial or corrupt one; histories of at most 4-6 datagrams',
+    'end to end: bundles of 40 ... 131073 octets through a real sender and receiver (datagrams in order / reversed), handed over as octets or as a file object positioned at 0 / 7 / its end; the popped octets are compared',
     'receive queue: four bundles (whole or in two segments, either order) and their pops in every interleaving',
     'paced sending: bundles of 70..1000 octets (whole and in 2..5 segments) with one or two SENDER_LISTEN announcements of the peer arriving on the sending socket at every pacing tick of the run',
     'ECN marking / feedback switched off in these scenarios (configuration)',
